@@ -2512,6 +2512,46 @@ def translate() -> tuple[str, dict]:
     E.lines.append(f'Definition g_collapse_engine_db_reads : nat := {len(db_reads)}.')
     E.lines.append(f'Definition g_collapse_engine_db_other_uses : nat := {len(db_other)}.')
 
+    # --- Instance.from_entity (round 4): how collapse_all turns a func_instance entity into the Instance it collapses - which
+    # keyvalue feeds which constructor parameter.  Read by meaning: the `cls(...)` call is matched against the parameter list of
+    # __init__ (positional or keyword), single-assignment locals are inlined.
+    fe = _find_func(itree, 'from_entity', 'Instance')
+    init = _find_func(itree, '__init__', 'Instance')
+    fe_locals = _single_assigned_locals(fe)
+    params = [a_.arg for a_ in init.args.args[1:]]
+    ctor = [n for n in ast.walk(fe) if isinstance(n, ast.Call) and isinstance(n.func, ast.Name) and n.func.id == fe.args.args[0].arg]
+    if len(ctor) != 1:
+        raise TranslateError('Instance.from_entity: exactly one cls(...) call expected')
+    bound: dict[str, str] = {}
+    for k_, a_ in enumerate(ctor[0].args):
+        if isinstance(a_, ast.Starred) or k_ >= len(params):
+            raise TranslateError('Instance.from_entity: cls(...) arguments not understood')
+        bound[params[k_]] = ast.unparse(fe_locals.get(a_.id, a_) if isinstance(a_, ast.Name) else a_)
+    for kw_ in ctor[0].keywords:
+        if kw_.arg is None or kw_.arg not in params:
+            raise TranslateError('Instance.from_entity: cls(...) keyword not understood')
+        bound[kw_.arg] = ast.unparse(fe_locals.get(kw_.value.id, kw_.value) if isinstance(kw_.value, ast.Name) else kw_.value)
+    ent_arg = fe.args.args[1].arg
+    want_args = {'name': f"{ent_arg}['targetname']", 'filename': f"{ent_arg}['file']", 'pos': f"Vec.from_str({ent_arg}['origin'])",
+                 'orient': f"Matrix.from_angstr({ent_arg}['angles'])", 'outputs': f'{ent_arg}.outputs', 'fixup': f'{ent_arg}.fixup.copy_values()'}
+    args_as_wanted = all(bound.get(k_) == v_ for k_, v_ in want_args.items())
+    # the style: FixupStyle(int(ent['fixup_style', '0'])) inside try / except ValueError -> FixupStyle.PREFIX
+    style_try = [n for n in ast.walk(fe) if isinstance(n, ast.Try)]
+    style_ok = False
+    if len(style_try) == 1 and len(style_try[0].body) == 1 and isinstance(style_try[0].body[0], ast.Assign):
+        tgt = ast.unparse(style_try[0].body[0].targets[0])
+        val = ast.unparse(style_try[0].body[0].value)
+        hs = style_try[0].handlers
+        fall = [st_ for h_ in hs for st_ in h_.body if isinstance(st_, ast.Assign) and ast.unparse(st_.targets[0]) == tgt]
+        style_ok = val == f"FixupStyle(int({ent_arg}['fixup_style', '0']))" and len(hs) == 1 and ast.unparse(hs[0].type) == 'ValueError' \
+            and len(fall) == 1 and ast.unparse(fall[0].value) == 'FixupStyle.PREFIX' and bound.get('fixup_type') == tgt
+    init_stores = {ast.unparse(st_.targets[0]): ast.unparse(st_.value) for st_ in init.body if isinstance(st_, ast.Assign)}
+    init_ok = all(init_stores.get(f'self.{k_}') == v_ for k_, v_ in (('name', 'name'), ('filename', 'filename'), ('pos', 'pos'), ('orient', 'orient'),
+                                                                     ('fixup_type', 'fixup_type'), ('fixup', 'EntityFixup(fixup)'), ('outputs', 'list(outputs)')))
+    side['from_entity'] = {'constructor_arguments': bound, 'style_branch_ok': style_ok, 'init_stores_ok': init_ok}
+    E.lines.append(f'Definition g_from_entity_reads_instance_keyvalues : bool := {"true" if args_as_wanted and init_ok else "false"}.')
+    E.lines.append(f'Definition g_from_entity_style_default_prefix : bool := {"true" if style_ok else "false"}.')
+
     # name-typed keyvalues (type.is_ent_name, TARG_DEST_CLASS when not a classname): the value goes through fixup_name, whole
     name_br = [nd for nms, nd in branches if '<is_ent_name>' in nms]
     cls_br = [nd for nms, nd in branches if 'TARG_DEST_CLASS' in nms]
